@@ -11,7 +11,10 @@ import (
 	"testing"
 	"time"
 
+	"github.com/elk-language/elk/ext"
 	"github.com/elk-language/elk/simhook"
+	"github.com/elk-language/elk/types/checker"
+	"github.com/elk-language/elk/vm"
 )
 
 // ReplayFile is the on-disk form of a violation.
@@ -114,6 +117,8 @@ func TestWorker(t *testing.T) {
 		t.Skip("SIM_MODE not set")
 	}
 	LoadLabels(os.Getenv("SIM_LABELS"))
+	warmUp(t)
+	simhook.TraceOn = os.Getenv("SIM_TRACE") != ""
 	switch mode {
 	case "explore":
 		explore(t)
@@ -204,6 +209,18 @@ func explore(t *testing.T) {
 			enc.Encode(map[string]any{"recycle": true, "next_n": n + 1})
 			break
 		}
+	}
+	if tf := os.Getenv("SIM_TRACE"); tf != "" {
+		var b strings.Builder
+		for _, l := range simhook.Trace {
+			if l >= 0 && int(l) < len(labelNames) {
+				b.WriteString(labelNames[l])
+			} else {
+				fmt.Fprint(&b, l)
+			}
+			b.WriteByte('\n')
+		}
+		os.WriteFile(tf, []byte(b.String()), 0o644)
 	}
 	enc.Encode(map[string]any{"sketch": stateSketch.values()})
 	fmt.Fprintf(os.Stderr, "DONE\n")
@@ -374,4 +391,26 @@ func minimise(t *testing.T) {
 	fmt.Fprintf(os.Stderr, "MINIMISED tries=%d decisions=%d\n", tries, len(cur.Sched.Replay))
 	fmt.Fprintf(os.Stderr, "DONE\n")
 	_ = strings.TrimSpace
+}
+
+// warmUp runs one throw-away check-and-run inside a simulation so that lazy,
+// once-per-process initialisation (extension headers, caches) happens before
+// the first real case: a case must behave the same whether it is the first or
+// the hundredth of its process, otherwise replays in fresh processes diverge.
+func warmUp(t *testing.T) {
+	defer func() { recover() }()
+	resetElk()
+	if e := ext.Map["std/test"]; e != nil && e.RuntimeInit != nil {
+		e.RuntimeInit()
+	}
+	src := "import \"std/test\"\nusing Std::Test::*\ndef warm_up_fn(x: Int): Int\n  y := x + 1\n  y\nend\nasync def warm_up_async(x: Int): Int\n  x\nend\nprintln \"${warm_up_fn(1)} ${await warm_up_async(2)}\"\n"
+	Simulate(t, simhook.Config{Strategy: "nonpreemptive", Seed: 1, EndOnMain: true, MaxTicks: 50_000_000}, SimOpts{Pool: 1, Queue: 16}, func(e *Env) {
+		fn, dl := checker.New().CheckSourceBytecode("warmup", src)
+		if dl.IsFailure() || fn == nil {
+			return
+		}
+		v := vm.New(vm.WithStdout(e.Out), vm.WithStderr(e.Out))
+		v.InterpretTopLevel(fn)
+	})
+	resetElk()
 }
